@@ -104,6 +104,8 @@ type world struct {
 	viaGrpc   bool
 	acctMgr   *standardaccountmanager.Service
 	traceLog  bool
+	store2    e2wtypes.Store
+	store2Wallets map[string]bool
 	pruning   bool
 	lockWarm  int
 	// stallFirstMs: the FIRST state write after the rules service starts (whoever makes it) stalls that long
@@ -195,6 +197,13 @@ func (w *world) config(f []string) bool {
 		// every service is built with trace-level logging (to a discarding writer): the code that only runs when a log
 		// entry is enabled runs too
 		w.traceLog = true
+	case "store2":
+		// that wallet lives in a SECOND wallet store of the same type (two directories, two buckets)
+		if w.store2Wallets == nil {
+			w.store2Wallets = map[string]bool{}
+		}
+		w.store2Wallets[unhexStr(f[1])] = true
+		w.noCache = true
 	case "pruning":
 		w.pruning = true // server.rules.periodic-pruning: true (the store's maintenance goroutine runs)
 	case "lockwarm":
@@ -240,7 +249,16 @@ func (w *world) buildWallets(ctx context.Context) {
 	// the keystore's key derivation costs ~50 ms per account: keep the serialised wallets of a configuration on disk
 	// (DH_WALLET_CACHE) and load them back into a fresh in-memory store in later processes
 	cacheFile := ""
-	if dir := os.Getenv("DH_WALLET_CACHE"); dir != "" {
+	if len(w.store2Wallets) > 0 {
+		w.store2 = scratch.New()
+	}
+	storeFor := func(wallet string) e2wtypes.Store {
+		if w.store2Wallets[wallet] {
+			return w.store2
+		}
+		return w.store
+	}
+	if dir := os.Getenv("DH_WALLET_CACHE"); dir != "" && len(w.store2Wallets) == 0 {
 		h := sha256.Sum256([]byte(w.acctKey() + "|" + strings.Join(w.wallets, ",")))
 		cacheFile = filepath.Join(dir, hex.EncodeToString(h[:16])+".json")
 		if restoreStore(cacheFile, w.store) {
@@ -257,7 +275,7 @@ func (w *world) buildWallets(ctx context.Context) {
 	}
 	wallets := map[string]e2wtypes.Wallet{}
 	for _, name := range w.wallets {
-		wal, err := nd.CreateWallet(ctx, name, w.store, enc)
+		wal, err := nd.CreateWallet(ctx, name, storeFor(name), enc)
 		if err != nil {
 			panic(err)
 		}
@@ -268,9 +286,9 @@ func (w *world) buildWallets(ctx context.Context) {
 		if !ok {
 			var err error
 			if a.dist != "" {
-				wal, err = distributed.CreateWallet(ctx, a.wallet, w.store, enc)
+				wal, err = distributed.CreateWallet(ctx, a.wallet, storeFor(a.wallet), enc)
 			} else {
-				wal, err = nd.CreateWallet(ctx, a.wallet, w.store, enc)
+				wal, err = nd.CreateWallet(ctx, a.wallet, storeFor(a.wallet), enc)
 			}
 			if err != nil {
 				panic(err)
@@ -322,7 +340,11 @@ func (w *world) buildWallets(ctx context.Context) {
 		}
 	}
 	var err error
-	w.fetcher, err = memfetcher.New(ctx, memfetcher.WithStores([]e2wtypes.Store{w.store}), memfetcher.WithEncryptor(enc))
+	stores := []e2wtypes.Store{w.store}
+	if w.store2 != nil {
+		stores = append(stores, w.store2)
+	}
+	w.fetcher, err = memfetcher.New(ctx, memfetcher.WithStores(stores), memfetcher.WithEncryptor(enc))
 	if err != nil {
 		panic(err)
 	}
@@ -426,7 +448,7 @@ func (w *world) openRules() {
 	}
 	w.process, err = standardprocess.New(w.ctx, standardprocess.WithChecker(w.checker), standardprocess.WithUnlocker(w.unlocker),
 		standardprocess.WithSender(nullSender{}), standardprocess.WithFetcher(w.fetcher), standardprocess.WithEncryptor(keystorev4.New()),
-		standardprocess.WithPeers(peersSvc), standardprocess.WithID(1), standardprocess.WithStores([]e2wtypes.Store{w.store}),
+		standardprocess.WithPeers(peersSvc), standardprocess.WithID(1), standardprocess.WithStores(w.allStores()),
 		standardprocess.WithGenerationPassphrase([]byte("pass")))
 	if err != nil {
 		panic(err)
@@ -435,7 +457,7 @@ func (w *world) openRules() {
 		standardsigner.WithUnlocker(w.unlocker),
 		standardsigner.WithChecker(w.checker),
 		standardsigner.WithFetcher(w.fetcher),
-		standardsigner.WithRuler(w.ruler))
+		standardsigner.WithRuler(shortRuler{w.ruler}))
 	if err != nil {
 		panic(err)
 	}
@@ -580,4 +602,11 @@ func removeStallFirst() {
 		baseHandler = stallPrev
 		verifhook.SetHandler(baseHandler)
 	}
+}
+
+func (w *world) allStores() []e2wtypes.Store {
+	if w.store2 != nil {
+		return []e2wtypes.Store{w.store, w.store2}
+	}
+	return []e2wtypes.Store{w.store}
 }
